@@ -17,7 +17,8 @@ RULE = ('random operation sequences (1..25 ops) on StateTraj and LumpedStateTraj
         'ORIGINAL input, the alias matrix (np.shares_memory between returned arrays, constructor '
         'arguments and private slots) must be empty, StateTraj(obj) is obj. Non-trivial: the history '
         'contains a write followed by a read.'
-        ' Added classes: narrow/unsigned integer arrays with > 128 states, zero-length member trajectories, other memory layouts.')
+        ' Added classes: narrow/unsigned integer arrays with > 128 states, zero-length member trajectories, other memory layouts.'
+        ' Later: macro labels that are a permutation of the micro labels, the constructor called again with the existing object and other micro trajectories.')
 TRUSTED = ['NumPy .copy(), arithmetic and fancy indexing allocate fresh arrays (checked by shares_memory on every run)']
 ASSUMPTIONS = ['labels within +-2^29; lumpings consistent (macro label is a function of the micro label)']
 BATCH = 500
